@@ -301,3 +301,23 @@ theorem parseRE_ci (p : Bytes) : parseRE (ciPrefix ++ p) = (parseCore p).map fol
   simp [parseRE, ciPrefix, Bytes.hasPrefix]
 
 end UF.Re
+
+namespace UF
+
+/-- `isRegexPattern` (rules/network.go): `/…/`. -/
+def isRegexPattern (p : Bytes) : Bool :=
+  decide (p.length > 1) && p.head? == some 47 && p.getLast? == some 47
+
+/-- The text `preparePattern` compiles for a regex rule: the inside of `/…/`, with `(?i)` unless `$match-case`. -/
+def regexRuleText (pattern : Bytes) (matchCase : Bool) : Bytes :=
+  let inner := (pattern.drop 1).dropLast
+  if matchCase then inner else Re.ciPrefix ++ inner
+
+/-- Model of `preparePattern` + `MatchString` for a rule pattern that is a `/regex/` (candidate for `Ext.pat`).
+    `none`: not a regex pattern, non-ASCII target, or an expression outside the modelled subset
+    (which includes the invalid ones, for which Go answers `false`). Mask patterns: see group G. -/
+def regexPat (pattern : Bytes) (matchCase : Bool) (target : Bytes) : Option Bool :=
+  if !isRegexPattern pattern || !Bytes.isAscii target then none
+  else (Re.parseRE (regexRuleText pattern matchCase)).map fun r => Re.searchFast r target
+
+end UF
